@@ -195,6 +195,57 @@ func c16Units(tier string) []Unit {
 			}
 		}})
 	}
+	// (2a) version-heavy tables: few user keys with very many versions each (a filter sized for the entry count in which
+	// only a few dozen bits are set), across the sizes a default memtable produces
+	units = append(units, Unit{Name: "hot-keys", Weight: 6, Run: func(c *Ctx) {
+		check := func(n, keys int) bool {
+			es := make([]types.Entry, 0, n)
+			for i := 0; i < n; i++ {
+				es = append(es, types.Entry{Key: types.KeyWithTs(fmt.Sprintf("hot-%03d", i%keys), uint64(n-i/keys)), Version: int64(n - i/keys)})
+			}
+			f := filter.Build(es)
+			c.Res.Executions++
+			c.Res.States++
+			c.Res.Transitions += int64(n)
+			for k := 0; k < keys; k++ {
+				c.Res.Evaluations++
+				if !f.Contains(fmt.Sprintf("hot-%03d", k)) {
+					c.Violation("c16/false-negative/hot-keys", fmt.Sprintf("filter built from %d entries (%d user keys, %d versions each) denies member %q", n, keys, n/keys, fmt.Sprintf("hot-%03d", k)), nil, map[string]any{"n": n, "hot_keys": keys})
+					return false
+				}
+			}
+			c.NT(fmt.Sprintf("hot n=%d keys=%d", n, keys))
+			return true
+		}
+		if c.Replay != nil {
+			var rc struct {
+				N    int `json:"n"`
+				Keys int `json:"hot_keys"`
+			}
+			jsonUnmarshal(c.Replay.Case, &rc)
+			if check(rc.N, rc.Keys) {
+				fmt.Println("every member is admitted")
+			}
+			return
+		}
+		step := 500
+		if tier == "thorough" {
+			step = 97
+		}
+		for _, keys := range []int{1, 7, 100} {
+			for n := 1000; n <= 70000; n += step {
+				if c.TimeUp() {
+					c.Res.Exhaustive = false
+					c.Cap("deadline reached inside the hot-keys sweep")
+					return
+				}
+				if !check(n, keys) {
+					return
+				}
+			}
+		}
+		c.Sample(map[string]any{"entries": fmt.Sprintf("1000..70000 step %d", step), "user_keys": "1, 7, 100", "versions_per_key": "entries / user keys"})
+	}})
 	// (2b) every key length: the hash path must not depend on the length of the key (scratch buffers, block-wise hashing)
 	units = append(units, Unit{Name: "keylengths", Weight: 3, Run: func(c *Ctx) {
 		if c.Replay != nil {
@@ -340,7 +391,7 @@ func init() {
 		Units: c16Units,
 		Rule: "(between the member queries the same filter is asked about non-members, as lookups of other keys do) bounded-exhaustive inputs: every set of 1-3 user keys over all byte strings of length <= 2 from {0x00,'!','@','a',0xff}, each key in 1-3 versions, built with the real filter.Build and " +
 			"queried as the table lookup does; every entry count n = 1..4096 (thorough: ..8192 plus powers of two and neighbours up to 65537) with a deterministic key family, every member queried; " +
-			"every user-key length 1..600 (thorough: ..5000) and 8191..8193, 32768, 65513, 65514 (the largest the engine accepts) in two byte patterns, alone and with partners; filters rebuilt from table files by recover(); filters of the tables that compaction writes, for three table shapes x every discard watermark 0..7 x three level geometries, every stored entry queried; a case is non-trivial when the set has >= 2 distinct keys",
+			"version-heavy tables of 1 000..70 000 entries over 1, 7 and 100 user keys; every user-key length 1..600 (thorough: ..5000) and 8191..8193, 32768, 65513, 65514 (the largest the engine accepts) in two byte patterns, alone and with partners; filters rebuilt from table files by recover(); filters of the tables that compaction writes, for three table shapes x every discard watermark 0..7 x three level geometries, every stored entry queried; a case is non-trivial when the set has >= 2 distinct keys",
 		Assumptions: []string{
 			"exhaustive-input checking of a deterministic function: the bound is the alphabet and the n range",
 			"murmur3 is trusted",
